@@ -7,7 +7,10 @@ from .values import *  # noqa
 
 
 class Clause:
-    def __init__(self, label, src, props=None, hints=None):
+    def __init__(self, label, src, props=None, hints=None, witnesses=None):
+        self.witnesses = list(witnesses or [])   # spec expressions over the exit state's locals,
+                                                 # offered as candidates for `exists` goals (a
+                                                 # candidate that cannot be evaluated is skipped)
         self.label = label
         self.src = src
         self.props = list(props or [])
@@ -116,8 +119,8 @@ class Contract:
         self.requires_.append(Clause(label or 'pre%d' % len(self.requires_), src))
         return self
 
-    def ensures(self, label, src, props=None, hints=None):
-        self.ensures_.append(Clause(label, src, props or self.props, hints))
+    def ensures(self, label, src, props=None, hints=None, witnesses=None):
+        self.ensures_.append(Clause(label, src, props or self.props, hints, witnesses))
         return self
 
     def rely(self, label, src, reason):
